@@ -110,8 +110,13 @@ class Disconnection:
 
   def _remove_nonfield_backreferences(self):
     for k in self.__class__.OTHER_REFERENCES:
-      for ref in self._refs.get(k, []):
+      for ref in list(self._refs.get(k, [])):
         self._remove_backreference(ref, k)
+        if isinstance(ref, gfapy.line.group.Group) and ref.is_connected() and \
+            not ref.items:
+          # the group mentioned nothing but this line: a group without items
+          # cannot be written, it goes with the line (and so do its dependants)
+          ref.disconnect()
 
   def _remove_nonfield_references(self):
     self._refs = {}
